@@ -26,6 +26,8 @@ class Ctx:
 
     def explore(self, cases, check_case, timeout_s=10.0, init=None):
         if self.serial:
+            if init is not None:
+                init()
             return explore.run_serial(cases, check_case, timeout_s)
         return explore.run_sharded(cases, check_case, timeout_s, init=init)
 
@@ -60,6 +62,8 @@ def main(argv=None):
         case = body['case']
         if hasattr(mod, 'decode_case'):
             case = mod.decode_case(case)
+        if hasattr(mod, 'worker_init'):
+            mod.worker_init()
         with guard.watchdog(getattr(mod, 'TIMEOUT', 10.0) * 3):
             try:
                 out = mod.check_case(case)
